@@ -148,6 +148,14 @@ class Tracer:
                 d["cell_level"] = getattr(s, "_cell_level", None)
                 d["max_occupants"] = getattr(s, "_maximum_number_occupants", None)
                 d["occupants_not_bounded"] = bool(getattr(s, "_number_occupants_not_bounded", False))
+                # name of the charge the relevance filter looks at (closure variable of the filter), if any
+                try:
+                    f = s._is_relevant_unit
+                    free = dict(zip(f.__code__.co_freevars, [c.cell_contents for c in (f.__closure__ or ())]))
+                    d["charge_name"] = free.get("charge")
+                    d["charge_known"] = ("charge" in free) or not f.__code__.co_freevars
+                except Exception:  # noqa
+                    d["charge_known"] = False
             meta["internal_states"].append(d)
         self.meta = meta
         snap = flatten(mediator._state_handler.extract_global_state(), with_tree=True)
